@@ -23,14 +23,46 @@ import (
 )
 
 // EmitPattern is what the child prints on a stream in attempt att: n bytes, every line tagged.
+// EmitPattern: what the child prints on a stream. The two streams use disjoint byte sets (stdout: lower case, digits,
+// ':' and newline; stderr: upper case, ';' and '|'), so that a file holding both can be split again whatever the order
+// in which the two pipes were drained.
 func EmitPattern(stream string, att, n int) []byte {
 	var b bytes.Buffer
 	i := 0
 	for b.Len() < n {
-		fmt.Fprintf(&b, "%s%d:%07d\n", stream, att, i)
+		fmt.Fprintf(&b, "o%d:%07d\n", att, i)
 		i++
 	}
-	return b.Bytes()[:n]
+	out := b.Bytes()[:n]
+	if stream == "e" {
+		for k, c := range out {
+			switch {
+			case c >= '0' && c <= '9':
+				out[k] = 'A' + (c - '0')
+			case c == 'o':
+				out[k] = 'E'
+			case c == ':':
+				out[k] = ';'
+			case c == '\n':
+				out[k] = '|'
+			}
+		}
+	}
+	return out
+}
+
+func isErrByte(c byte) bool { return (c >= 'A' && c <= 'Z') || c == ';' || c == '|' }
+
+// splitStreams separates a file that holds both streams
+func splitStreams(b []byte) (o, e []byte) {
+	for _, c := range b {
+		if isErrByte(c) {
+			e = append(e, c)
+		} else {
+			o = append(o, c)
+		}
+	}
+	return
 }
 
 // EmitChild is the body of `vh emit`: attempt counter in a state file, prints, exits 1 while att <= failUntil.
@@ -46,6 +78,23 @@ func EmitChild(state string, nout, nerr, failUntil int, order string) int {
 	case "errfirst":
 		os.Stderr.Write(errb)
 		os.Stdout.Write(out)
+	case "parallel": // both streams at the same time, in small pieces: the two pipes are drained concurrently
+		var wg sync.WaitGroup
+		for _, pr := range []struct {
+			f *os.File
+			b []byte
+		}{{os.Stdout, out}, {os.Stderr, errb}} {
+			wg.Add(1)
+			go func(f *os.File, b []byte) {
+				defer wg.Done()
+				for len(b) > 0 {
+					k := min(173, len(b))
+					f.Write(b[:k])
+					b = b[k:]
+				}
+			}(pr.f, pr.b)
+		}
+		wg.Wait()
 	case "chunks": // alternate in chunks of 1000 bytes
 		for len(out) > 0 || len(errb) > 0 {
 			k := min(1000, len(out))
@@ -219,7 +268,11 @@ func RunNodeIO(self string, sc IOScenario, base string) Ev {
 		}
 		rec["stderrFile"] = Ev{"got": len(eb), "want": len(allErr), "equal": bytes.Equal(eb, allErr), "hasLast": bytes.HasSuffix(eb, e)}
 	} else {
-		rec["log"] = cmp(logb, lastAll)
+		// both streams reach the log; they may travel through separate pipes, so only the order within each stream is fixed
+		lo, le := splitStreams(logb)
+		c := cmp(logb, lastAll)
+		c["equal"] = bytes.Equal(lo, o) && bytes.Equal(le, e)
+		rec["log"] = c
 		rec["stderrFile"] = Ev{"got": 0, "want": 0, "equal": true, "hasLast": true}
 	}
 	if sc.StdoutF {
@@ -230,13 +283,12 @@ func RunNodeIO(self string, sc IOScenario, base string) Ev {
 		}
 		// the property demands every byte written to stdout; when stderr is not sent to its own file the code
 		// routes it into the same writer chain, so the file then holds the attempt's whole output in write order
-		var allBoth []byte
-		if !sc.StderrF {
-			for a := 1; a <= attempts; a++ {
-				allBoth = append(allBoth, interleave(sc.Order, EmitPattern("o", a, sc.NOut), EmitPattern("e", a, sc.NErr))...)
-			}
+		var allErr []byte
+		for a := 1; a <= attempts; a++ {
+			allErr = append(allErr, EmitPattern("e", a, sc.NErr)...)
 		}
-		eq := bytes.Equal(ob, allOut) || (!sc.StderrF && bytes.Equal(ob, allBoth))
+		fo, fe := splitStreams(ob)
+		eq := bytes.Equal(fo, allOut) && (len(fe) == 0 || (!sc.StderrF && bytes.Equal(fe, allErr)))
 		rec["stdoutFile"] = Ev{"got": len(ob), "want": len(allOut), "equal": eq, "hasLast": bytes.HasSuffix(ob, o)}
 	} else {
 		rec["stdoutFile"] = Ev{"got": 0, "want": 0, "equal": true, "hasLast": true}
